@@ -105,6 +105,7 @@ type fx struct {
 	curCallee   *ssa.CallCommon
 	keepAllRegs []region
 	keepAllInit  bool
+	boundNames   []string // quantifier variables whose body is being evaluated
 	heapAllocs   []heapAlloc
 	keepAllLocal []*Expr // keepsall expressions over locals, evaluated per call
 	localRefs   []string // refs of non-escaping locals of this activation
@@ -141,6 +142,13 @@ var defRe = regexp.MustCompile(`^\(= \|[^|]+\| `)
 func (x *fx) assume(f string) {
 	if f == "true" {
 		return
+	}
+	// a side fact produced while a quantifier's body is evaluated must not leak
+	// the bound variable to the top level: it is dropped (fewer assumptions)
+	for _, bn := range x.boundNames {
+		if strings.Contains(f, bn) && !strings.Contains(f, "(("+bn+" ") {
+			return
+		}
 	}
 	if x.curBlock != nil && x.curPC != "true" && x.curPC != "" && !defRe.MatchString(f) {
 		f = "(=> " + x.curPC + " " + f + ")"
